@@ -15,6 +15,24 @@ REPO = os.environ.get("VERIF_REPO", "/repo")
 PKG = "artap"
 
 
+OPAQUE = {}        # "artap/x.py" -> [(first line, last line, function, [new helpers it still calls])]
+_NEW_NAMES = []
+
+
+def opaque_at(location):
+    """the not-inlined new helpers called by the function that contains `artap/x.py:LINE`, or []"""
+    try:
+        path, line = location.rsplit(":", 1)
+        line = int(line)
+    except ValueError:
+        return []
+    best = None
+    for lo, hi, fname, names in OPAQUE.get(path, []):
+        if lo <= line <= hi and (best is None or lo >= best[0]):
+            best = (lo, hi, fname, names)
+    return best[3] if best else []
+
+
 class AnalysisError(Exception):
     """The analysis cannot be carried out (vanished anchor, unknown shape)."""
 
@@ -59,6 +77,11 @@ class Module:
             # helpers unknown to the rules: inline, normalise (which may expose further call sites), inline again
             tree = inline_module(normalize_module(inline_module(tree, name), comp=comp), name)
         self.tree = normalize_module(tree, comp=comp)
+        from .inline import new_bare_names, residual_calls
+        if not _NEW_NAMES:
+            _NEW_NAMES.append(new_bare_names(_KNOWN_CACHE[0]))
+        self.opaque = residual_calls(self.tree, _NEW_NAMES[0])
+        OPAQUE["%s/%s.py" % (PKG, name)] = self.opaque
         self.digest = hashlib.sha256(source.encode()).hexdigest()[:16]
         self.classes = {}
         self.functions = {}
@@ -96,6 +119,7 @@ class Repo:
         # raw trees of all modules first: the inliner may have to look into a sibling module
         from . import inline as _inline
         _inline.PKG.clear()
+        del _NEW_NAMES[:]
         for fn in sorted(os.listdir(pkgdir)):
             if fn.endswith(".py"):
                 try:
